@@ -26,7 +26,7 @@ LEAN_MODULES = ["NiftyVerif.Core.Proto", "NiftyVerif.Props.C33"]
 DRIVER = "Driver/C33.lean"
 OBLIGATIONS = ["NiftyVerif.C33." + t for t in (
     "flatten_map₂", "binary_flat", "flatten_broadcast_scalar", "unary_flat", "size_flat", "sum_flat", "max_flat",
-    "min_flat", "vdot_flat", "norm_flat_1", "norm_flat_inf", "norm_flat_2", "slices_moveaxis", "stack_moveaxis",
+    "min_flat", "vdot_flat", "where_flat", "norm_flat_1", "norm_flat_inf", "norm_flat_2", "slices_moveaxis", "stack_moveaxis",
     "reord_inverse", "smap_eq_vmap", "asFound_none_returns_input", "lscan_eq_scan")]
 RULE = ("pytrees: nested dict/tuple/list, depth<=3, 1-6 leaves of shape () .. 3-D with integer entries; operators: all "
         "binary/unary overloads of Vector with tree/tree, scalar/tree, tree/scalar and mismatching operands; reductions; where; "
@@ -597,6 +597,36 @@ def oracle_cplx(case):
     return None
 
 
+# ---- forests (tuples of equally structured trees): oracle only ---------------------------------------------------------------
+def oracle_forest(case):
+    import nifty.re as jft
+    from nifty.re.tree_math import forest_math as fm
+    from nifty.re.tree_math.vector import Vector
+    trees = [to_py(t, np.float64) for t in case["trees"]]
+    flats = np.stack([flat(t) for t in trees])
+    sig = dict(op="forest")
+    try:
+        forest = tuple(Vector(t) for t in trees) if case.get("how") == 1 else tuple(trees)
+        m = fm.mean(forest)
+        if not np.allclose(flat(m), flats.mean(axis=0), rtol=1e-12, atol=1e-12):
+            return ("mean(forest) differs from the mean of the flat arrays", dict(sig, what="mean"))
+        if len(trees) > 1:
+            m2, sd = fm.mean_and_std(forest, correct_bias=True)
+            if not np.allclose(flat(m2), flats.mean(axis=0), rtol=1e-12, atol=1e-12) or \
+                    not np.allclose(flat(sd), flats.std(axis=0, ddof=1), rtol=1e-9, atol=1e-9):
+                return ("mean_and_std(forest) differs from the flat-array statistics", dict(sig, what="mean_and_std"))
+        st = fm.stack(tuple(trees))
+        back = fm.unstack(st)
+        if len(back) != len(trees) or any(not np.array_equal(flat(a), flat(b)) for a, b in zip(back, trees)):
+            return ("unstack(stack(forest)) is not the forest", dict(sig, what="stack-unstack"))
+        if not np.array_equal(flat(jft.zeros_like(trees[0])), np.zeros(flats.shape[1])) or \
+                not np.array_equal(flat(jft.ones_like(trees[0])), np.ones(flats.shape[1])):
+            return ("zeros_like / ones_like differ from the flat arrays of zeros / ones", dict(sig, what="like"))
+    except Exception as e:
+        return (f"forest_math raised {type(e).__name__}: {str(e)[:100]}", dict(sig, what="raised"))
+    return None
+
+
 # ---- dispatch ---------------------------------------------------------------------------------------------------------
 def oracle(case):
     _jax()
@@ -615,6 +645,8 @@ def oracle(case):
         return oracle_smap(case)
     if k == "cplx":
         return oracle_cplx(case)
+    if k == "forest":
+        return oracle_forest(case)
     return None
 
 
@@ -658,6 +690,8 @@ def model_request(case):
         return dict(op="smap", cfg="fixed", args=case["args"], outs=case["outs"], len=case["len"])
     if case["op"] == "cplx":
         return dict(op="reduce", x=case["a"])        # complex leaves are not modelled: placeholder request
+    if case["op"] == "forest":
+        return dict(op="reduce", x=case["trees"][0])
     return {k: v for k, v in case.items() if k != "how"}
 
 
@@ -682,13 +716,16 @@ def run(ctx):
     for _ in range(ctx.n(25, 200)):
         a = gen_tree(rng, rng.choice([1, 2, 3]), -5, 5)
         cases.append(dict(op="cplx", a=a, ai=same_struct(rng, a, -5, 5), b=same_struct(rng, a, -5, 5), bi=same_struct(rng, a, -5, 5)))
+    for _ in range(ctx.n(20, 150)):
+        a = gen_tree(rng, rng.choice([1, 2, 3]))
+        cases.append(dict(op="forest", trees=[a] + [same_struct(rng, a) for _ in range(rng.randrange(0, 4))], how=rng.randrange(2)))
     outs = ctx.model(DRIVER, [model_request(c) for c in cases])
     for c, m in zip(cases, outs):
         k = c["op"]
         ctx.stat("op:" + k + (":" + c["f"] if "f" in c else ""))
         try:
-            if k == "cplx":
-                ctx.case(c, num_leaves(c["a"]) >= 2)
+            if k in ("cplx", "forest"):
+                ctx.case(c, num_leaves(c["a"] if k == "cplx" else c["trees"][0]) >= 2)
                 r = oracle(c)
                 if r:
                     ctx.counterexample(c, *r)
